@@ -14,10 +14,11 @@ RULE = ("circuits: every sequence of <=L operations over {X(q), RY(a_q)(q) with 
         "n qubits (asymmetric states: distinct single-qubit marginals); per circuit: state vector, exact distribution (all 2^n keys), exact <Z_S> for "
         "ALL 2^n subsets S tied to the returned distribution, sampling through run_and_measure with the scripted default_rng for sample counts in "
         "both internal regimes (1, 2 <= 2^n and 2^n+1 > 2^n) under every answer script within the deviation bound, counts and measured <Z_S>. "
+        "wide registers: X on every single qubit (and two patterns, and two-outcome states) on 9 qubits in both regimes. "
         "non-trivial = state not symmetric under qubit reversal; distinct = canonical circuit")
 ASSUMPTIONS = ["gate matrices taken from the library (C02), embedding from the /verif reference (C01)", "np.random.default_rng(seed).choice is the only randomness in sampling (trapped otherwise)",
                "scripted picks are restricted to entries with p > 0 (numpy never returns a zero-probability entry)"]
-BOUNDS = {"quick": {"n": [2, 3], "L": 2, "deviations": 1}, "thorough": {"n": [2, 3, 4], "L": "3 (n<=3), 2 (n=4)", "deviations": 2}}
+BOUNDS = {"quick": {"n": [2, 3], "L": 2, "deviations": 1, "wide_n": [9]}, "thorough": {"n": [2, 3, 4], "L": "3 (n<=3), 2 (n=4)", "deviations": 2, "wide_n": [8, 9, 10]}}
 ANG = [0.7, 1.9, 2.6, 0.4]
 TOL = 1e-9
 
@@ -151,7 +152,71 @@ def real_rng_case(case):
     return {"ok": True, "nt": True, "ops": 10, "out": "real"}
 
 
-FUNCS = {"views": views_case, "real_rng": real_rng_case}
+def wide_case(case):
+    """{'n': n, 'x': [qubits flipped], 'ry': qubit rotated or None, 'samples': k}: wide registers (basis-state index needs more than one byte):
+    state index, exact distribution key, exact <Z_q>, and samples in the given regime all name the same qubits"""
+    from orquestra.quantum import circuits as C
+    from orquestra.quantum.runners.symbolic_simulator import SymbolicSimulator
+    n, xs, ry, k = case["n"], case["x"], case["ry"], case["samples"]
+    ops = [C.X(q) for q in xs] + ([C.RY(0.7)(ry)] if ry is not None else [])
+    c = C.Circuit(ops, n_qubits=n)
+    bits = tuple(1 if q in xs else 0 for q in range(n))
+    support = {bits: 1.0}
+    if ry is not None:
+        b1 = tuple(1 - b if q == ry else b for q, b in enumerate(bits))
+        p1 = float(np.sin(0.35) ** 2)
+        support = {bits: 1 - p1, b1: p1}
+    sim = SymbolicSimulator()
+    amps = np.asarray(sim.get_wavefunction(c).amplitudes, dtype=complex).reshape(-1)
+    probs = np.abs(amps) ** 2
+    for b, pr in support.items():
+        if abs(probs[idx_of(b, n)] - pr) > TOL:
+            return {"ok": False, "msg": "state vector: basis index of outcome %s does not carry probability %.4f" % (b, pr), "observed": float(probs[idx_of(b, n)]), "sig": "wide:state"}
+    dist = sim.get_measurement_outcome_distribution(c, None).distribution_dict
+    for b, pr in support.items():
+        if abs(dist.get(b, 0.0) - pr) > TOL:
+            return {"ok": False, "msg": "exact distribution: key %s should carry %.4f" % (b, pr), "observed": float(dist.get(b, 0.0)), "sig": "wide:distribution"}
+    for q in sorted({0, 1, n // 2, n - 2, n - 1} | set(xs)):
+        got = sim.get_exact_expectation_values(c, z_op((q,)))
+        exp = sum(pr * (-1) ** b[q] for b, pr in support.items())
+        if abs(got - exp) > TOL:
+            return {"ok": False, "msg": "exact <Z_%d> on %d qubits" % (q, n), "expected": exp, "observed": float(got), "sig": "wide:expectation"}
+    n_exec = 0
+    seen = set()
+
+    def execute(script):
+        with seams.owned_rng(script):
+            return SymbolicSimulator(seed=3).run_and_measure(c, k)
+    for choices, m, script in seams.explore(execute, bound=1, max_exec=5000):
+        n_exec += 1
+        shots = [tuple(x) for x in m.bitstrings]
+        if len(shots) < k:
+            return {"ok": False, "msg": "fewer samples than requested", "sig": "wide:count"}
+        call = script.calls[0]
+        for sh, i in zip(shots, call["idx"]):
+            if len(sh) != n or sh not in support:
+                return {"ok": False, "msg": "%d samples on %d qubits (answers with %d deviations): sample %s has zero exact probability or wrong length" % (k, n, sum(1 for x in choices if x), sh),
+                        "expected": str(list(support)), "observed": str(sh), "sig": "wide:sampling"}
+            if abs(support[sh] - call["p"][i]) > 1e-9:
+                return {"ok": False, "msg": "sample %s is not the outcome the sampler picked (p=%.4f)" % (sh, call["p"][i]), "sig": "wide:sampling-pick"}
+        seen.update(shots)
+        counts = m.get_counts()
+        ref_counts = {}
+        for sh in shots:
+            ref_counts["".join(map(str, sh))] = ref_counts.get("".join(map(str, sh)), 0) + 1
+        if dict(counts) != ref_counts:
+            return {"ok": False, "msg": "count strings are not the sampled tuples written left to right", "sig": "wide:counts"}
+        for q in (0, n - 1, xs[0] if xs else 1):
+            ev = m.get_expectation_values(z_op((q,))).values[0]
+            exp = float(rs.mean([F(rs.eig(sh, (q,))) for sh in shots]))
+            if abs(ev - exp) > 1e-12:
+                return {"ok": False, "msg": "measured <Z_%d> is not the sample mean" % q, "expected": exp, "observed": float(ev), "sig": "wide:measured"}
+    if seen != set(support):
+        return {"ok": False, "msg": "some supported outcome was never sampled under any answer", "sig": "wide:unreachable"}
+    return {"ok": True, "nt": bits != bits[::-1], "ops": 4 + n_exec, "out": "n%d-k%s" % (n, "few" if k <= 2 ** n else "many"), "extra": {"sampling_executions": n_exec}}
+
+
+FUNCS = {"views": views_case, "real_rng": real_rng_case, "wide": wide_case}
 
 
 def run(run):
@@ -165,4 +230,24 @@ def run(run):
                 cases.append({"ops": [A[i] for i in combo], "n": n, "bound": bound if ln <= 2 else 1})
     secs = [Section("views", cases, views_case, horizon=900, desc="state / exact distribution / exact <Z_S> / scripted sampling in both regimes / counts / measured <Z_S>"),
             Section("real_rng", cases[::9], real_rng_case, desc="real default_rng(seed), seeds 0..4: samples inside the support and of register length")]
+    # product-state preparation (every basis state populated, pairwise different probabilities) followed by every sequence of <= 2 entangling / permuting operations
+    for n in ((2, 3, 4) if thorough else (2, 3)):
+        prep = [{"gate": G("RY", ANG[q]), "q": [q]} for q in range(n)]
+        B = [{"gate": G("CNOT"), "q": [i, j]} for i in range(n) for j in range(n) if i != j] + [{"gate": G("SWAP"), "q": [i, j]} for i in range(n) for j in range(i + 1, n)]
+        B += [{"gate": G("X"), "q": [q]} for q in range(n)] + [{"gate": G("CZ"), "q": [n - 1, 0]}]
+        for ln in (1, 2):
+            for combo in itertools.product(range(len(B)), repeat=ln):
+                cases.append({"ops": prep + [B[i] for i in combo], "n": n, "bound": 1 if n < 4 else 0})
+    secs[0] = Section("views", cases, views_case, horizon=900, desc=secs[0].desc + "; also after a product-state preparation, every sequence of <= 2 ops over CNOT (ordered pairs), SWAP, X, CZ")
+    wide = []
+    for n in ((8, 9, 10) if thorough else (9,)):
+        pats = [[q] for q in range(n)] + [[0, n - 2], [1, 2, n - 1]]
+        for xs in pats:
+            for k in (1, 2 ** n + 1):
+                wide.append({"n": n, "x": xs, "ry": None, "samples": k})
+        for xs, ry in (([0], n - 1), ([n - 1], 0), ([1], n // 2)):
+            for k in (2, 2 ** n + 1):
+                wide.append({"n": n, "x": xs, "ry": ry, "samples": k})
+    secs.append(Section("wide", wide, wide_case, horizon=900, desc="registers of 9 (thorough 8-10) qubits, where a basis index needs more than one byte: basis and two-outcome states, "
+                        "both sampling regimes (1-2 samples, 2^n+1 samples), every answer script with <= 1 deviation"))
     run.run_sections(secs)
